@@ -8,6 +8,8 @@ import Verif.Spec.HtmlTraits
 import Verif.Spec.CssUnits
 import Verif.Gen.EntitiesHtml
 import Verif.Gen.TextRevHtml
+import Verif.Gen.AttrRevHtml
+import Verif.Gen.AttrRevXml
 import Verif.Gen.EntitiesXml
 import Verif.Gen.TextRevXml
 import Verif.Gen.TagTraits
@@ -29,9 +31,9 @@ linear Boolean checker (`List.all`), i.e. the Lean kernel evaluates the specific
 (`Spec/HtmlRefs`, `Spec/HtmlTraits`, `Spec/CssUnits`, independent tables `Gen.Html5Entities`, `Gen.CssColors`)
 on each row.  Strings are packed (`Base/Pack.lean`: `pk! "amp"`), `unpack` gives their bytes.
 
-Two rows of the pinned tree are *not* justified by the standard; for those the full statement is kept as a
-`def … : Prop`, refuted from the offending row (`…_counterexample`, conditional on the row still being in the
-table so that a repaired tree does not break the build) and proved with the row excluded (`…_partial`).
+One row of the tree is *not* justified by the standard (`attrMap[Xmlns] = urlAttr`); for it the full statement is
+kept as a `def … : Prop`, refuted from the offending row (`…_counterexample`, conditional on the row still being in
+the table so that a repaired tree does not break the build) and proved with the row excluded (`…_partial`).
 -/
 namespace Verif.Props.C17
 open Verif Verif.Gen Verif.Spec.HtmlRefs Verif.Spec.HtmlTraits Verif.Spec.CssUnits Verif.Spec.TableChecks
@@ -71,20 +73,55 @@ example : decodeCps .text (unpack (pk! "&notit; &amp; &#x80;")) = [172, 105, 116
 example : decodeCps .attr (unpack (pk! "&notit; &not= &not")) = unpack (pk! "&notit; &not= ") ++ [172] := by
   decide +kernel
 
-/-- **every row `(c, esc)` of `html.TextRevEntitiesMap`**: `esc` decodes to exactly the character `c` in text,
-    contains no `<`, and `c` is not `&` (the escape is itself a reference) -/
-theorem textrev_html_ok : ∀ row ∈ TextRevHtml.table, ∃ c, unpack row.1 = [c] ∧
-    decodeCps .text (unpack row.2) = [c] ∧ 60 ∉ unpack row.2 := by
-  have h : TextRevHtml.table.all textRevRowOk = true := by decide +kernel
+/-- a decimal numeric reference to an ASCII byte decodes, in text and in an attribute value, to `numericFix c`
+    (U+FFFD for NUL, the character itself otherwise) — this is "what a reference to the byte `c` means" below -/
+theorem numeric_ref_decodes : ∀ c ∈ List.range 128,
+    decodeCps .text (numRef c) = [numericFix c] ∧ decodeCps .attr (numRef c) = [numericFix c] := by
+  have h : (List.range 128).all (fun c =>
+      decodeCps .text (numRef c) == [numericFix c] && decodeCps .attr (numRef c) == [numericFix c]) = true := by
+    decide +kernel
+  intro c hc
+  have h := all_of h c hc
+  simp only [Bool.and_eq_true, beq_iff_eq] at h
+  exact h
+
+/-- **every row `(c, esc)` of `html.TextRevEntitiesMap`** (`esc` is written in a text node when a reference decoded
+    to the byte `c`): `esc` decodes in text to exactly what a reference to `c` decodes to (`<` for 60, CR for 13,
+    U+FFFD for 0 — see `numeric_ref_decodes`), and consists of printable ASCII other than `<` -/
+theorem textrev_html_ok : ∀ row ∈ TextRevHtml.table,
+    decodeCps .text (unpack row.2) = [numericFix row.1] ∧ row.1 < 128 ∧
+    (unpack row.2).all plainByte = true := by
+  have h : TextRevHtml.table.all (htmlRevRowOk .text) = true := by decide +kernel
   intro row hm
   have h := all_of h row hm
-  unfold textRevRowOk at h
-  split at h
-  · rename_i c hc
-    simp only [Bool.and_eq_true, beq_iff_eq, Bool.not_eq_true', List.contains_eq_mem,
-      decide_eq_false_iff_not] at h
-    exact ⟨c, hc, h.1.1, h.1.2⟩
-  · exact absurd h (by decide)
+  simp only [htmlRevRowOk, Bool.and_eq_true, beq_iff_eq, decide_eq_true_eq] at h
+  exact ⟨h.1.2, h.1.1, h.2⟩
+
+/-- **every row of `html.AttrRevEntitiesMap`**: the same in an attribute value -/
+theorem attrrev_html_ok : ∀ row ∈ AttrRevHtml.table,
+    decodeCps .attr (unpack row.2) = [numericFix row.1] ∧ row.1 < 128 ∧
+    (unpack row.2).all plainByte = true := by
+  have h : AttrRevHtml.table.all (htmlRevRowOk .attr) = true := by decide +kernel
+  intro row hm
+  have h := all_of h row hm
+  simp only [htmlRevRowOk, Bool.and_eq_true, beq_iff_eq, decide_eq_true_eq] at h
+  exact ⟨h.1.2, h.1.1, h.2⟩
+
+/-- every row of the two HTML reverse maps is needed: the parser would *not* read the literal byte back as the text
+    the reference stood for — a literal CR is normalised to LF, a literal NUL is dropped from text, `<` opens markup
+    in text (`literalCps`).  The one exception is NUL in an attribute value, where the literal byte also ends as
+    U+FFFD; keeping the reference there avoids a NUL byte (a parse error) in the output. -/
+theorem rev_html_needed :
+    (∀ row ∈ TextRevHtml.table, literalCps .text row.1 ≠ some [numericFix row.1]) ∧
+    (∀ row ∈ AttrRevHtml.table, row.1 ≠ 0 → literalCps .attr row.1 ≠ some [numericFix row.1]) := by
+  have h1 : TextRevHtml.table.all (htmlRevRowNeeded .text) = true := by decide +kernel
+  have h2 : AttrRevHtml.table.all (fun row => row.1 == 0 || htmlRevRowNeeded .attr row) = true := by decide +kernel
+  refine ⟨fun row hm => ?_, fun row hm hne => ?_⟩
+  · have h := all_of h1 row hm
+    simpa [htmlRevRowNeeded] using h
+  · have h := all_of h2 row hm
+    simp only [htmlRevRowNeeded, Bool.or_eq_true, beq_iff_eq, hne, false_or, bne_iff_ne, ne_eq] at h
+    exact h
 
 /-- every replacement of `html.EntitiesMap` that is the markup character `<` has an escape in
     `html.TextRevEntitiesMap` (so `&lt;`/`&LT;` in text never become a literal `<`) -/
@@ -110,16 +147,40 @@ theorem entities_xml_ok : ∀ row ∈ EntitiesXml.table,
   simp only [xmlEntityRowOk, Bool.and_eq_true, beq_iff_eq, decide_eq_true_eq] at h
   exact ⟨h.1.1, h.1.2, h.2⟩
 
-/-- **every row `(c, esc)` of `xml.TextRevEntitiesMap`**: `esc` is a well-formed reference to exactly `c` -/
+/-- **every row `(c, esc)` of `xml.TextRevEntitiesMap`**: `esc` is a well-formed reference to exactly the
+    character `c`, and consists of printable ASCII other than `<` -/
 theorem textrev_xml_ok : ∀ row ∈ TextRevXml.table,
-    decodeXmlCps (unpack row.2) = some (unpack row.1) ∧ (unpack row.1).length = 1 := by
-  have h : TextRevXml.table.all xmlTextRevRowOk = true := by decide +kernel
+    decodeXmlCps (unpack row.2) = some [row.1] ∧ (unpack row.2).all plainByte = true := by
+  have h : TextRevXml.table.all xmlRevRowOk = true := by decide +kernel
   intro row hm
   have h := all_of h row hm
-  simp only [xmlTextRevRowOk, Bool.and_eq_true, beq_iff_eq] at h
-  exact ⟨h.1.1, h.1.2⟩
+  simp only [xmlRevRowOk, Bool.and_eq_true, beq_iff_eq] at h
+  exact ⟨h.1.2, h.2⟩
 
-example : 0 < EntitiesXml.table.length ∧ 0 < TextRevXml.table.length ∧ 0 < TextRevHtml.table.length := by
+/-- **every row of `xml.AttrRevEntitiesMap`**: the same -/
+theorem attrrev_xml_ok : ∀ row ∈ AttrRevXml.table,
+    decodeXmlCps (unpack row.2) = some [row.1] ∧ (unpack row.2).all plainByte = true := by
+  have h : AttrRevXml.table.all xmlRevRowOk = true := by decide +kernel
+  intro row hm
+  have h := all_of h row hm
+  simp only [xmlRevRowOk, Bool.and_eq_true, beq_iff_eq] at h
+  exact ⟨h.1.2, h.2⟩
+
+/-- every row of the two XML reverse maps is needed: the literal character is markup (`<`, `&`) or would be
+    normalised to a space in an attribute value (TAB, LF, CR; XML 1.0 §3.3.3) -/
+theorem rev_xml_needed :
+    (∀ row ∈ TextRevXml.table, xmlLiteralCps false row.1 ≠ some [row.1]) ∧
+    (∀ row ∈ AttrRevXml.table, xmlLiteralCps true row.1 ≠ some [row.1]) := by
+  have h1 : TextRevXml.table.all (xmlRevRowNeeded false) = true := by decide +kernel
+  have h2 : AttrRevXml.table.all (xmlRevRowNeeded true) = true := by decide +kernel
+  refine ⟨fun row hm => ?_, fun row hm => ?_⟩
+  · have h := all_of h1 row hm
+    simpa [xmlRevRowNeeded] using h
+  · have h := all_of h2 row hm
+    simpa [xmlRevRowNeeded] using h
+
+example : 0 < EntitiesXml.table.length ∧ 0 < TextRevXml.table.length ∧ 0 < TextRevHtml.table.length ∧
+    0 < AttrRevHtml.table.length ∧ 0 < AttrRevXml.table.length := by
   decide +kernel
 
 /-! ## CSS colours -/
@@ -203,33 +264,28 @@ theorem raw_tags_ok : ∀ row ∈ TagTraits.table, row.2.contains TagTrait.rawTa
   simp only [ht, Bool.not_true, Bool.false_or] at h
   exact h
 
-/-- full statement: white space next to every `blockTag` element is insignificant for rendering -/
-def block_tags_full : Prop :=
-  ∀ row ∈ TagTraits.table, row.2.contains TagTrait.blockTag = true → isWsInsignificant row.1 = true
-
-/-- … holds for every tag except `marquee` (known finding K-C17-1) -/
-theorem block_tags_partial : ∀ row ∈ TagTraits.table, row.2.contains TagTrait.blockTag = true →
-    row.1 ≠ pk! "marquee" → isWsInsignificant row.1 = true := by
-  have h : TagTraits.table.all
-      (fun row => Nat.beq row.1 (pk! "marquee") || blockTagRowOk row) = true := by
-    decide +kernel
-  intro row hm ht hne
+/-- **every tag of `html.tagMap` with the `blockTag` bit**: white space next to the element's boundary is
+    insignificant for rendering — block-level, table part, line break, `display: none`, or part of a `select`
+    (`Spec/HtmlTraits.isWsInsignificant`) -/
+theorem block_tags_ok : ∀ row ∈ TagTraits.table, row.2.contains TagTrait.blockTag = true →
+    isWsInsignificant row.1 = true := by
+  have h : TagTraits.table.all blockTagRowOk = true := by decide +kernel
+  intro row hm ht
   have h := all_of h row hm
-  have hb : Nat.beq row.1 (pk! "marquee") = false := by
-    cases hbq : Nat.beq row.1 (pk! "marquee") with
-    | false => rfl
-    | true => exact absurd (Nat.eq_of_beq_eq_true hbq) hne
-  simp only [blockTagRowOk, ht, hb, Bool.not_true, Bool.false_or] at h
+  unfold blockTagRowOk at h
+  simp only [ht, Bool.not_true, Bool.false_or] at h
   exact h
 
-/-- `marquee` is `display: inline-block` (HTML Standard §15 Rendering, "The marquee element"): white space next to
-    it is rendered; as long as the row is in the table the full statement fails -/
-theorem block_tags_counterexample :
-    (pk! "marquee", [TagTrait.blockTag]) ∈ TagTraits.table → ¬ block_tags_full := by
-  intro hm hfull
-  have := hfull _ hm (by decide)
-  revert this
-  decide +kernel
+/-- no tag carries both `blockTag` (drop white space around it) and `objectTag` (keep white space after it) -/
+theorem block_object_disjoint : ∀ row ∈ TagTraits.table,
+    ¬ (row.2.contains TagTrait.blockTag = true ∧ row.2.contains TagTrait.objectTag = true) := by
+  have h : TagTraits.table.all
+      (fun row => !(row.2.contains TagTrait.blockTag && row.2.contains TagTrait.objectTag)) = true := by
+    decide +kernel
+  intro row hm ⟨h1, h2⟩
+  have h := all_of h row hm
+  simp only [h1, h2, Bool.and_self, Bool.not_true] at h
+  exact absurd h (by decide)
 
 example : 0 < TagTraits.table.length ∧ 0 < AttrTraits.table.length := by decide +kernel
 example : (TagTraits.table.filter (fun r => r.2.contains TagTrait.blockTag)).length > 10 := by decide +kernel
